@@ -365,6 +365,7 @@ def miri_tier(prop, tier, seed, scale):
 C16_CONFIGS_SEQ = (
     [("vdebug", par, rea) for par in ("even", "odd", "mixed") for rea in ("move", "inplace")]
     + [("vrelease", par, rea) for par in ("even", "odd", "mixed") for rea in ("move", "inplace")]
+    + [("vdebug", "packed", "move"), ("vrelease", "packed", "inplace")]
     + [("nostd", "mixed", "mixed"), ("nostd-debug", "odd", "move"), ("xplat", "mixed", "mixed")]
 )
 C16_CONFIGS_BUF = [("vrelease", None, None), ("xplat", None, None)]
